@@ -788,9 +788,28 @@ fn build_inner(
                 logical.comp.to_jbk(),
                 Arc::clone(&opts.progress),
             )?;
+            // content packs 2.. are "extra" packs written to their own atomic files and handed to
+            // BasicCreator::finalize
+            let mut extras: Vec<creator::ContentPackCreator<dyn creator::PackRecipient>> = Vec::new();
+            for p in 2..=logical.n_packs {
+                let path = dir.join(format!("{name}.x{p}.jbkc"));
+                let file: Box<dyn creator::PackRecipient> = creator::AtomicOutFile::new(utf8(&path))?;
+                extras.push(creator::ContentPackCreator::new_from_output_with_progress(
+                    file,
+                    jbk::PackId::from(p),
+                    vendor,
+                    Default::default(),
+                    logical.comp.to_jbk(),
+                    Arc::clone(&opts.progress),
+                )?);
+            }
             for (i, c) in logical.contents.iter().enumerate() {
                 let input = make_input(c, i, scratch, logical.aux_seed, opts)?;
-                let addr = bc.add_content(input, c.hint.to_jbk())?;
+                let addr = if c.pack >= 2 {
+                    extras[c.pack as usize - 2].add_content(input, c.hint.to_jbk())?
+                } else {
+                    bc.add_content(input, c.hint.to_jbk())?
+                };
                 let m = &model.contents[i];
                 if addr.pack_id != jbk::PackId::from(m.pack)
                     || addr.content_id != jbk::ContentIdx::from(m.content_id)
@@ -803,8 +822,11 @@ fn build_inner(
                 }
             }
             let parts = Box::new(make_dir_parts(logical, &mut model));
-            bc.finalize(parts, vec![])?;
-            let files = expected_files(logical.packaging, dir, name);
+            bc.finalize(parts, extras)?;
+            let mut files = expected_files(logical.packaging, dir, name);
+            for p in 2..=logical.n_packs {
+                files.push(dir.join(format!("{name}.x{p}.jbkc")));
+            }
             Ok(Built {
                 entry: out,
                 files,
